@@ -442,7 +442,49 @@ def C16(tier):
     return jobs, floors, rule
 
 
-PROPS = {"C01": C01, "C02": C02, "C03": C03, "C04": C04, "C05": C05, "C06": C06, "C07": C07, "C08": C08, "C09": C09, "C10": C10, "C11": C11, "C15": C15, "C16": C16, "C19": C19}
+def C17(tier):
+    m = 1 if tier == "quick" else 12
+    jobs = []
+    lsan = {"VF_LSAN": "1"}
+    for i in range(4):
+        jobs.append(hj("h_life", 5 * m, first=i * 5 * m, flavor="asan", timeout=600))
+    jobs += [hj("h_life", 3 * m, first=2000, flavor="asan", ncpu=1, scale=40, timeout=600), hj("h_life", 4 * m, first=2100, flavor="asan", ncpu=2, scale=60, timeout=600),
+             hj("h_life", 4 * m, first=2200, flavor="asan", ncpu=4, timeout=600)]
+    jobs += [hj("h_life", 6 * m, first=3000), hj("h_life", 6 * m, first=3100, ncpu=2, scale=60)]
+    # other object families under ASan: queue graphs torn down in random order, sources cancelled at every life-cycle
+    # point with descriptor reuse, block objects (private data + queue references), data objects and their destructors
+    jobs += [hq("hier", 4 * m, first=5000, flavor="asan", scale=30, timeout=600), hq("wl", 3 * m, first=5100, flavor="asan", scale=30, timeout=600),
+             hj("h_source", 3 * m, first=5200, mode="cancel", flavor="asan", scale=40, timeout=600),
+             hj("h_block", 3 * m, first=5300, flavor="asan", scale=30, timeout=600), hj("h_block", 2 * m, first=5400, flavor="asan", mode="window", timeout=600),
+             Job("asan", "h_data", ["--trials=%d" % (20 * m), "--first=5500"], timeout=600, tag="h_data:asan:c17"),
+             hj("h_timer", 2 * m, first=5600, flavor="asan", scale=50, timeout=600)]
+    for j in jobs:
+        if j.flavor == "asan" and j.harness in ("h_life", "h_data", "h_queue"):   # the other harnesses keep per-case records alive on purpose
+            j.env.update({"ASAN_OPTIONS": "abort_on_error=1:detect_leaks=1:halt_on_error=1:allocator_may_return_null=1", "LSAN_OPTIONS": "exitcode=23:report_objects=0"})
+    if tier == "thorough":
+        jobs += [hj("h_life", 20 * m, first=9000, flavor="dbg", timeout=1800)]
+        for t in jobs:
+            t.timeout = 1800
+    floors = {
+        "objects_finalized": 15000 * (1 if tier == "quick" else 8),
+        "target_order_checked": 5000,
+        "cancel_cases": 60,
+        "block_cases": 500,
+        "site:_os_object_release_internal_n_inline:4": 100000,
+        "site:_dispatch_lane_class_dispose:0": 10000,
+    }
+    rule = ("one case = one lifetime scenario: the last application reference to a queue / source / group / workloop is dropped right "
+            "after submitting, from inside the object's own item, while a child queue or a source still targets it, by another thread "
+            "right after a resume, while a timer is armed, with merges or a dispatch_after in flight, after retargeting an inactive "
+            "queue; hierarchies are torn down in random order; 1-6 driver threads in parallel under a perturbation profile; oracle: "
+            "AddressSanitizer + LeakSanitizer (asan flavor) for use-after-free / double free / leaks, finalizer exactly once, on the "
+            "target queue, with the context current at release, not before the object's items finished, child before parent, "
+            "everything finalised at quiescence; trial line = batch of scenarios; the same ASan build also runs the queue-graph, "
+            "source-cancellation, block-object, data-object and timer harnesses")
+    return jobs, floors, rule
+
+
+PROPS = {"C01": C01, "C02": C02, "C03": C03, "C04": C04, "C05": C05, "C06": C06, "C07": C07, "C08": C08, "C09": C09, "C10": C10, "C11": C11, "C15": C15, "C16": C16, "C17": C17, "C19": C19}
 
 
 # specs kept in their own files (vf/p_<ID>.py defines spec(tier))
